@@ -55,6 +55,15 @@ fn ops(pad: &'static str) -> Vec<Vec<S>> {
         set("s", meth(a(), "join", vec![st("")])),
         set("s", meth(s(), "to_uppercase", vec![])),
         set("s", s()),
+        // strings produced by the other built-ins
+        set("s", meth(s(), "slice", vec![num("1"), num("4")])),
+        set("s", meth(s(), "replace", vec![st("s"), t()])),
+        set("s", meth(add(s(), st("  ")), "trim", vec![])),
+        set("t", meth(s(), "to_lowercase", vec![])),
+        set("s", call("to_string", vec![a()])),
+        set("s", call("typeof", vec![s()])),
+        set("s", idx(meth(s(), "split", vec![st("s")]), num("0"))),
+        S::Expr(meth(a(), "reverse", vec![])),
         set("t", s()),
         set("t", add(s(), t())),
         set("t", call("id", vec![s()])),
@@ -161,6 +170,10 @@ fn programs(pad: &'static str, max_len: u32, core_only: bool) -> Gen<Vec<S>> {
         all.into_iter()
             .filter(|w| {
                 let txt = print(w);
+                // the built-in string producers are in the full alphabet only
+                if [".slice(", ".replace(", ".trim(", "to_string(", "typeof(", ".split(\"s\")", ".to_lowercase("].iter().any(|b| txt.contains(b)) {
+                    return false;
+                }
                 txt.contains("sets(") || txt.contains("sett(") || txt.contains("id(") || txt.contains("s get s")
                     || txt.contains("a.push(s)") || txt.contains("a[0] get s") || txt.contains("shout(s)")
                     || txt.contains("shout(a)") || txt.contains("a.pop") || txt.contains("rec(") || txt.contains("mkc(") || txt.contains("grow(") || txt.contains("first(")
